@@ -1,5 +1,6 @@
 import Clover.Proofs.BulkExact
 import Clover.Generated.Facts
+import Clover.Proofs.Translated
 import Clover.Props.C17
 import Clover.Proofs.PlannerModel
 import Clover.Proofs.ReadsExact
@@ -146,13 +147,22 @@ theorem copy_index_transparent (s : Spec.State) (σ : KVS) (hw : WF s) (hr : Rep
     r.1 = sp.1 ∧ Rep sp.2 r.2.1 ∧ WF sp.2 :=
   createCollectionByQuery_exact_any_plan likeFn fnFam s σ hw hr c hc q fresh hdomain hskip hlimit
 
+/-- (translated, regenerated from the source on every run) **`unaryCriteriaToRange` as the current source writes it** -
+    the table that turns a comparison on the indexed field into the range the index is scanned over - is the model's
+    `toRange`, for every operator and operand (field references and `$`-strings give no range, a nil bound only for
+    equality); with `C17.source_ranges_are_the_models` (intersection, emptiness) this is the whole range derivation
+    of the planner read off the source. -/
+theorem source_range_derivation_is_the_models (op : CmpOp) (f : Bytes) (x : Operand) :
+    (Gen.unaryCriteriaToRange ⟨Translated.opName op, f, x⟩).map Translated.toModel = toRange op x :=
+  Translated.unaryCriteriaToRange_eq op f x
+
 end CV.Props.C02
 
 -- SOURCE-TEXT-BEGIN (generated by tools/mk_source_theorems.py; do not edit by hand)
 namespace CV.Props.C02
 
 /-- (facts, regenerated from the source on every run) **The source text the model transcribes is the text of the
-    current source**: the bodies (comments and layout removed) of the 22 functions the model behind C02 was written from and
+    current source**: the bodies (comments and layout removed) of the 21 functions the model behind C02 was written from and
     validated against.  Any edit of one of them breaks this theorem at build time; the check then searches with the
     property's own oracles for a failing input, and reports `no-failing-input-found` if it finds none: the model then
     has to be re-validated against the new text (and this block regenerated). -/
@@ -160,7 +170,6 @@ theorem source_decision_logic : CV.Facts.logicC02 = [
   "clover..NewFieldRangeVisitor: { return &FieldRangeVisitor{ Fields: util.StringSliceToSet(fields), } }", 
   "clover..getIndexQueries: { if q.Criteria() == nil || len(indexes) == 0 { return nil } info := make(map[string]*index.Info) for _, idx := range indexes { info[idx.Field()] = &index.Info{ Field: idx.Field(), Type: idx.Type(), } } c := q.Criteria().Accept(&NotFlattenVisitor{}).(query.Criteria) selectedFields := c.Accept(&IndexSelectVisitor{ Fields: info, }).([]*index.Info) if len(selectedFields) == 0 { return nil } indexesMap := make(map[string]index.Index) for _, idx := range indexes { indexesMap[idx.Field()] = idx } fieldRanges := c.Accept(NewFieldRangeVisitor([]string{selectedFields[0].Field})).(map[string]*index.Range) queries := make([]index.Query, 0) for field, vRange := range fieldRanges { queries = append(queries, &index.RangeIndexQuery{ Range: vRange, Idx: indexesMap[field].(index.RangeIndex), }) } return queries }", 
   "clover..tryToSelectIndex: { indexQueries := getIndexQueries(q, indexes) if len(indexQueries) == 1 { outputSorted := false idxQuery := indexQueries[0] if rangeQuery, ok := idxQuery.(*index.RangeIndexQuery); ok { if len(q.SortOptions()) == 1 && q.SortOptions()[0].Field == rangeQuery.Idx.Field() { rangeQuery.Reverse = q.SortOptions()[0].Direction < 0 outputSorted = true } } return &iterNode{ idxQuery: idxQuery, filter: q.Criteria(), collection: q.Collection(), }, outputSorted } if len(q.SortOptions()) == 1 { for _, idx := range indexes { if idx.Type() == index.SingleField && idx.Field() == q.SortOptions()[0].Field { return &iterNode{ filter: q.Criteria(), collection: q.Collection(), idxQuery: &index.RangeIndexQuery{ Range: nil, Idx: idx.(index.RangeIndex), Reverse: q.SortOptions()[0].Direction < 0, }, }, true } } } return nil, false }", 
-  "clover..unaryCriteriaToRange: { if isFieldReference(c.Value) { return nil } if c.Value == nil && c.OpType != query.EqOp { return nil } switch c.OpType { case query.EqOp: return &index.Range{ Start: c.Value, End: c.Value, StartIncluded: true, EndIncluded: true, } case query.LtOp: return &index.Range{ Start: nil, End: c.Value, StartIncluded: false, EndIncluded: false, } case query.LtEqOp: return &index.Range{ Start: nil, End: c.Value, StartIncluded: false, EndIncluded: true, } case query.GtOp: return &index.Range{ Start: c.Value, End: nil, StartIncluded: false, EndIncluded: false, } case query.GtEqOp: return &index.Range{ Start: c.Value, End: nil, StartIncluded: true, EndIncluded: false, } } return nil }", 
   "clover.FieldRangeVisitor.VisitBinaryCriteria: { if c.OpType != query.LogicalAnd { return map[string]*index.Range{} } leftRanges := c.C1.Accept(v).(map[string]*index.Range) rightRanges := c.C2.Accept(v).(map[string]*index.Range) mergedMap := make(map[string]*index.Range) for key, value := range leftRanges { mergedMap[key] = value } for key, value := range rightRanges { vRange := mergedMap[key] if vRange == nil { mergedMap[key] = value } else { mergedMap[key] = vRange.Intersect(value) } } return mergedMap }", 
   "clover.FieldRangeVisitor.VisitNotCriteria: { return map[string]*index.Range{} }", 
   "clover.FieldRangeVisitor.VisitUnaryCriteria: { if v.Fields[c.Field] { r := unaryCriteriaToRange(c) if r != nil { return map[string]*index.Range{c.Field: r} } } return map[string]*index.Range{} }", 
